@@ -337,6 +337,13 @@ pub fn case_names(scratch: &Path, meta: usize, id: &str, seed: u64, len: usize, 
             }
         }
     }
+    // a file whose name is not valid UTF-8 (24 bytes long, `wal-` prefix)
+    {
+        use std::os::unix::ffi::OsStrExt;
+        let mut raw = b"wal-0000000000000000000".to_vec();
+        raw.push(0xff);
+        let _ = std::fs::write(dir.join(std::ffi::OsStr::from_bytes(&raw)), b"not utf-8");
+    }
     let snapshot_foreign = |dir: &Path| -> BTreeMap<String, String> {
         let mut m = BTreeMap::new();
         hash_tree(dir, &mut m, "");
